@@ -105,11 +105,29 @@ Proof.
       replace (p - s_off s <? 8) with false by (symmetry; apply N.ltb_ge; lia). f_equal. lia.
 Qed.
 
+(* Serializer._ensure_writable holds whenever the bytes exist *)
+Lemma ensure_writable_true s a n : a + n <= blen (s_buf s) -> ensure_writable s a n = true.
+Proof. intros H. unfold ensure_writable. apply N.leb_le. exact H. Qed.
+Lemma ensure_writable_false s a n : blen (s_buf s) < a + n -> ensure_writable s a n = false.
+Proof. intros H. unfold ensure_writable. apply N.leb_gt. exact H. Qed.
+
+(* with room for len(value) + 1 bytes (or nothing to write) the capacity test passes and the byte loop runs *)
+Lemma add_unaligned_bytes_loop s value : value = [] \/ s_off s / 8 + blen value < blen (s_buf s) ->
+  add_unaligned_bytes s value = add_unaligned_loop s (s_off s mod 8) (8 - s_off s mod 8) value.
+Proof.
+  intros [->|H]; [reflexivity|]. unfold add_unaligned_bytes. rewrite ensure_writable_true by lia.
+  cbn [negb]. rewrite andb_false_r. reflexivity.
+Qed.
+(* a successful add_unaligned_bytes is a successful run of its byte loop *)
+Lemma add_unaligned_bytes_some s value s' : add_unaligned_bytes s value = Some s' ->
+  add_unaligned_loop s (s_off s mod 8) (8 - s_off s mod 8) value = Some s'.
+Proof. unfold add_unaligned_bytes. destruct (_ && _); [discriminate|]. exact (fun H => H). Qed.
+
 (* add_unaligned_bytes: works at EVERY bit offset; needs the spare byte the Serializer allocates *)
 Theorem add_unaligned_bytes_appends s value :
   Inv s -> bytes_ok (s_buf s) -> bytes_ok value -> s_off s / 8 + blen value < blen (s_buf s) \/ value = [] ->
   exists s', add_unaligned_bytes s value = Some s' /\ appended s s' (8 * blen value) (bit value).
-Proof. intros. unfold add_unaligned_bytes. apply add_unaligned_loop_spec; assumption. Qed.
+Proof. intros HI Hok Hv Hcap. rewrite add_unaligned_bytes_loop by (destruct Hcap; auto). apply add_unaligned_loop_spec; assumption. Qed.
 
 (* _unsigned_to_bytes *)
 Lemma to_bytes_loop_le n : forall v, to_bytes_loop n v = le_bytes n v.
